@@ -45,6 +45,7 @@ type Rig struct {
 	PCfg  PacketCfg // how fake peers wrap packets so that V accepts them
 	SCfg  StreamCfg
 	Keys  [][]byte // keys V accepts / uses (for parsing V's output)
+	NoHeader bool  // V runs with SkipInboundLabelCheck: inbound traffic carries no label header
 }
 
 // RigOpts configures V.
@@ -172,6 +173,9 @@ func (fp *FakePeer) SendAfter(msg []byte, d time.Duration) {
 	r := fp.rig
 	var raw []byte
 	r.C.Net.Rand(func(rng *rand.Rand) { raw = BuildPacket(r.PCfg, msg, rng) })
+	if r.NoHeader {
+		raw = raw[len(LabelHeader(r.PCfg.Label)):]
+	}
 	r.C.Net.InjectAfter(r.V.EP, fp.EP.Addr, raw, d)
 }
 
